@@ -43,14 +43,15 @@ func main() {
 // ---------------------------------------------------------------- what a child does
 
 type Spec struct {
-	Kind      string   `json:"kind"`               // "fault" | "leak"
-	Sink      string   `json:"sink"`               // stl 3mf dxf svg tri
-	Renderer  string   `json:"renderer,omitempty"` // fault: script mcu octree ms quadtree dc2
-	Cells     int      `json:"cells,omitempty"`    // real renderers: mesh cells
-	Writes    []int    `json:"writes,omitempty"`   // script: sizes of the Writes
-	Target    string   `json:"target,omitempty"`   // ok devfull nodir isdir rlimit
-	Limit     int64    `json:"limit,omitempty"`    // rlimit: RLIMIT_FSIZE in bytes
-	History   []string `json:"history,omitempty"`  // leak: renderer of each successive render
+	Kind      string   `json:"kind"`                 // "fault" | "leak"
+	Sink      string   `json:"sink"`                 // stl 3mf dxf svg tri
+	Renderer  string   `json:"renderer,omitempty"`   // fault: script mcu octree ms quadtree dc2
+	Cells     int      `json:"cells,omitempty"`      // real renderers: mesh cells
+	Writes    []int    `json:"writes,omitempty"`     // script: sizes of the Writes
+	Target    string   `json:"target,omitempty"`     // ok devfull nodir isdir rlimit
+	Limit     int64    `json:"limit,omitempty"`      // rlimit: RLIMIT_FSIZE in bytes
+	History   []string `json:"history,omitempty"`    // leak: renderer of each successive render
+	CellsHist []int    `json:"cells_hist,omitempty"` // leak: mesh cells of each successive render (default Cells)
 	TimeoutMs int      `json:"timeout_ms"`
 	Dir       string   `json:"dir,omitempty"` // scratch directory (set by the parent)
 }
@@ -185,6 +186,9 @@ func childMain(arg string) {
 		case "leak":
 			res.Base = settledGoroutines()
 			for i, r := range sp.History {
+				if i < len(sp.CellsHist) {
+					sp.Cells = sp.CellsHist[i]
+				}
 				callSink(&sp, r, targetPath(&sp, i))
 				res.Goroutines = append(res.Goroutines, settledGoroutines())
 			}
@@ -294,7 +298,11 @@ func specKey(sp Spec) string {
 			parts = append(parts, fmt.Sprintf("%sx%d", sp.History[i], j-i))
 			i = j
 		}
-		return fmt.Sprintf("leak sink=%s history=%s cells=%d", sp.Sink, strings.Join(parts, ","), sp.Cells)
+		k := fmt.Sprintf("leak sink=%s history=%s cells=%d", sp.Sink, strings.Join(parts, ","), sp.Cells)
+		if len(sp.CellsHist) > 0 {
+			k += fmt.Sprintf(" cells_hist=%v", sp.CellsHist)
+		}
+		return k
 	}
 	k := fmt.Sprintf("hang sink=%s renderer=%s target=%s", sp.Sink, sp.Renderer, sp.Target)
 	if sp.Target == "rlimit" {
@@ -468,6 +476,16 @@ func checkC12(c *Ctx, r *Report) error {
 				add(Spec{Sink: "stl", Renderer: renderer, Cells: cells, Writes: w, Target: "rlimit", Limit: l})
 			}
 		}
+		// a failure EARLY in a LARGE mesh: hundreds of batches are still to come when the writer gives up
+		for _, tg := range []string{"devfull"} {
+			add(Spec{Sink: "stl", Renderer: "script", Writes: rep(tN, 300), Target: tg})
+			add(Spec{Sink: "stl", Renderer: "mcu", Cells: 60, Target: tg})
+			add(Spec{Sink: "stl", Renderer: "octree", Cells: 80, Target: tg})
+		}
+		for _, l := range []int64{4096, 40960} {
+			add(Spec{Sink: "stl", Renderer: "script", Writes: rep(tN, 300), Target: "rlimit", Limit: l})
+			add(Spec{Sink: "stl", Renderer: "mcu", Cells: 60, Target: "rlimit", Limit: l})
+		}
 		sweep("script", 0, rep(tN, 12))
 		sweep("script", 0, mcLike(1200))
 		sweep("mcu", 12, nil)
@@ -515,6 +533,16 @@ func checkC12(c *Ctx, r *Report) error {
 		}
 		mixed[0] = "octree"
 		leak("stl", mixed, 8)
+		// resolutions that keep growing (each render larger than any before) and shrinking again
+		grow := make([]int, K)
+		for i := range grow {
+			grow[i] = 20 + 6*i
+			if i%5 == 4 {
+				grow[i] = 12
+			}
+		}
+		specs = append(specs, Spec{Kind: "leak", Sink: "tri", History: hist("mcu", K), CellsHist: grow, Cells: 8, Target: "ok", TimeoutMs: 120000})
+		specs = append(specs, Spec{Kind: "leak", Sink: "stl", History: mixed, CellsHist: grow, Cells: 8, Target: "ok", TimeoutMs: 120000})
 		leak("dxf", hist("ms", K), 20)
 		leak("svg", hist("quadtree", K), 20)
 		leak("dxf", hist("dc2", K), 20)
@@ -525,7 +553,9 @@ func checkC12(c *Ctx, r *Report) error {
 	var wg sync.WaitGroup
 	sem := make(chan struct{}, 8)
 	for i := range specs {
-		specs[i].TimeoutMs = timeout
+		if specs[i].TimeoutMs == 0 {
+			specs[i].TimeoutMs = timeout
+		}
 		specs[i].Dir = filepath.Join(scratch, fmt.Sprint(i))
 		os.MkdirAll(specs[i].Dir, 0o755)
 		if specs[i].Kind == "leak" && specs[i].Writes == nil {
@@ -571,7 +601,11 @@ func checkC12(c *Ctx, r *Report) error {
 			}
 		}
 		if res.Err != "" {
-			return fmt.Errorf("%s: %s", key, res.Err)
+			// the child died (runtime "all goroutines are asleep - deadlock!", a panic) or had to be
+			// killed: the call did not return
+			r.Case(stratum, key, true)
+			r.Violate(key, fmt.Sprintf("the render call did not return in an orderly way: %s", res.Err), clean)
+			continue
 		}
 		switch sp.Kind {
 		case "fault":
